@@ -83,6 +83,57 @@ class Posters:
         return out
 
 
+QMAX, OMAX = 10, 60
+
+
+class PeriodicPosters(Posters):
+    """the default schedule is replaced by a fair periodic one: from scheduling point `o` of the window on, poster `who`
+    runs at most `q` points in a row, then every other enabled thread runs until it blocks, then the poster again.
+    Every thread keeps taking steps (fair), the poster is preempted once per round: a retry loop whose exit test can be
+    defeated by the other threads in every round never terminates - and the run reaches the horizon."""
+    name = "c05-periodic"
+    fair_k = 10 ** 9
+
+    def policy(self, p):
+        who, q, o = "poster%d" % p["who"], p["q"], p["o"]
+        st = {"run": 0}
+
+        def choose(s, opts, costs, label):
+            cur = s.current
+            if len(s.trace) < o:
+                return 0
+            names = [getattr(t, "name", None) for t in opts]
+            if opts[0] is cur and cur.name == who:
+                st["run"] += 1
+                if st["run"] > q:
+                    st["run"] = 0
+                    for k, t in enumerate(opts):
+                        if t is not cur and t is not sched.CLOCK:
+                            return k
+                return 0
+            if opts[0] is cur:
+                return 0                    # somebody else keeps running until it blocks
+            # the running thread blocked or finished: anybody but the poster first
+            for k, nm in enumerate(names):
+                if nm != who and opts[k] is not sched.CLOCK:
+                    return k
+            st["run"] = 0
+            return 0
+        return choose
+
+
+def periodic(tier):
+    ps = []
+    for base in params(tier):
+        for who in range(len(base["kinds"])):
+            if who > 0 and base["kinds"][who] == base["kinds"][0]:
+                continue
+            for q in range(1, QMAX + 1):
+                for o in range(0, OMAX + 1, 1 if tier != "quick" else 2):
+                    ps.append(dict(base, who=who, q=q, o=o, bound=0))
+    return explore.explore(PeriodicPosters("line"), ps, 0), len(ps)
+
+
 def self_horizon(h):
     return h.horizon
 
@@ -103,7 +154,12 @@ def run(tier):
     bound = 2
     h = Posters("line")
     st = explore.explore(h, params(tier), bound)
-    fill(res, st, bound, "line")
+    # fair periodic schedules (see PeriodicPosters): livelocks that need a preemption in every iteration of a retry loop
+    pst, nper = periodic(tier)
+    st.merge(pst)
+    fill(res, st, bound, "line", "; plus %d fair periodic schedules {one poster runs q = 1..%d scheduling points, then every other thread "
+         "runs until it blocks; the regime starts at point o = 0..%d}: a run that reaches the horizon under such a schedule is a "
+         "livelock with unboundedly many preemptions" % (nper, QMAX, OMAX))
     return res
 
 
